@@ -120,19 +120,30 @@ class StripWhitespaceFilter:
     def _stripws_parenthesis(self, tlist):
         while tlist.tokens[1].is_whitespace:
             tlist.tokens.pop(1)
-        while tlist.tokens[-2].is_whitespace:
-            tlist.tokens.pop(-2)
-        if tlist.tokens[-2].is_group:
+        # the closing parenthesis is not the last token if comments follow it
+        cidx, _ = tlist.token_next_by(m=sql.Parenthesis.M_CLOSE)
+        while tlist.tokens[cidx - 1].is_whitespace:
+            tlist.tokens.pop(cidx - 1)
+            cidx -= 1
+        if tlist.tokens[cidx - 1].is_group:
             # save to remove the last whitespace
-            while tlist.tokens[-2].tokens[-1].is_whitespace:
-                tlist.tokens[-2].tokens.pop(-1)
+            while tlist.tokens[cidx - 1].tokens[-1].is_whitespace:
+                tlist.tokens[cidx - 1].tokens.pop(-1)
         self._stripws_default(tlist)
 
     def process(self, stmt, depth=0):
         [self.process(sgroup, depth + 1) for sgroup in stmt.get_sublists()]
         self._stripws(stmt)
-        if depth == 0 and stmt.tokens and stmt.tokens[-1].is_whitespace:
-            stmt.tokens.pop(-1)
+        if depth == 0:
+            # whitespace at the border of a group has its neighbour in
+            # another token list
+            last_was_ws = True
+            for token in stmt.flatten():
+                if token.is_whitespace and last_was_ws:
+                    token.value = ''
+                last_was_ws = token.is_whitespace
+            while stmt.tokens and stmt.tokens[-1].is_whitespace:
+                stmt.tokens.pop(-1)
         return stmt
 
 
